@@ -69,6 +69,9 @@ Bytes ref_mask(int nbytes, int L)
 }
 bool is_mapped(const Bytes& v6) { static const uint8_t P[12] = {0, 0, 0, 0, 0, 0, 0, 0, 0, 0, 0xff, 0xff}; return v6.size() == 16 && memcmp(v6.data(), P, 12) == 0; }
 bool is_internal_prefix(const Bytes& v6) { static const uint8_t P[6] = {0xfd, 0x6b, 0x88, 0xc0, 0x87, 0x24}; return v6.size() == 16 && memcmp(v6.data(), P, 6) == 0; }
+/** fd87:d87e:eb43::/48 (OnionCat, Tor v2 in IPv6): CNetAddr::SetLegacyIPv6 deliberately turns such bytes into the invalid all-zero
+ *  address ("TORv2-in-IPv6 (unsupported)"), so they are not IPv6 addresses as far as the code under test is concerned */
+bool is_onioncat_prefix(const Bytes& v6) { static const uint8_t P[6] = {0xfd, 0x87, 0xd8, 0x7e, 0xeb, 0x43}; return v6.size() == 16 && memcmp(v6.data(), P, 6) == 0; }
 
 std::string fmt_v4(const Bytes& b) { char s[32]; snprintf(s, sizeof s, "%u.%u.%u.%u", b[0], b[1], b[2], b[3]); return s; }
 /** full (uncompressed) hextet form; every resolver accepts it */
@@ -115,6 +118,7 @@ Bytes gen_ip_bytes(verif::Src& s, int fam)
     default: { auto r = s.bytes(n); r.resize(n); b = r; }
     }
     if (is_internal_prefix(b)) b[5] ^= 1; // fd6b:88c0:8724::/48 is the "internal" name space, not an IP address
+    if (is_onioncat_prefix(b)) b[5] ^= 1; // fd87:d87e:eb43::/48 is parsed as the invalid all-zero address (unsupported Tor v2 embedding)
     return b;
 }
 
@@ -251,6 +255,8 @@ VERIF_TARGET(c60_subnet, init_c60, 8, 96,
     // probes
     unsigned match_n = 0, nomatch_n = 0;
     auto do_probe = [&](const Bytes& b, const char* what) {
+        // a bit flip may land inside a prefix that is not an IP address for the code under test (precondition of the reference)
+        if (is_internal_prefix(b) || is_onioncat_prefix(b)) { st.cls("probe-skipped:special-prefix"); return; }
         probe(sn, ref_valid, e.fam, e.bytes, std::min(L, nbits), b, st, what);
         CNetAddr a = make_ip(b);
         Fam pe = effective(b);
